@@ -14,7 +14,7 @@
                queries differ, (validation:) app hashes / results / events of two runs or of a
                restarted run differ. *)
 From Coq Require Import ZArith NArith List String Bool Ascii.
-From PV Require Export Genesis.RoundTrip Corr.CorrBase.
+From PV Require Export Genesis.RoundTrip Genesis.QuarantineAccept Genesis.FullProduct Corr.CorrBase Corr.C18Gen.
 Import ListNotations.
 Open Scope string_scope.
 Open Scope list_scope.
@@ -135,7 +135,7 @@ Definition ext_of (t : tables) : ext :=
      x_attr_key := fun a => lookup3 [] (t_attr_keys t) (at_addr a) (at_name a) (at_value a);
      x_attr_valid := fun _ => true;
      x_attr_norm := fun n => Some n;
-     x_rec_id := fun l => List.concat l;
+     x_rec_id := fun l => List.concat (ksort l);     (* senders sorted, as createRecordSuffix hashes them *)
      x_unsanctionable := fun a => existsb (key_eqb a) (t_unsanctionable t);
      x_msgfee_key := lookup1 [] (t_fee_keys t);
      x_msgfee_valid := fun _ => true;
@@ -167,7 +167,18 @@ Inductive case :=
     and of another run of the same history ([kind] = "rerun", "process", "restart"); with
     [kind] = "postimport": results and events of the blocks the exporting chain and the chain
     initialised from its export run next (import-then-continue equals continue). *)
-| CDigests (label kind : string) (ref other : list string).
+| CDigests (label kind : string) (ref other : list string)
+(** exchange / marker / metadata: genesis exported by a chain (g1) and by the modules of a fresh
+    chain initialised from it (g2, before any block), with the raw secondary-index entries of
+    the three stores on both sides. *)
+| CDeepRound (label : string) (t : deep_tables) (g1 g2 : deep_genesis) (ix1 ix2 : deep_index)
+(** a perturbed exchange / marker / metadata genesis through the real InitChain *)
+| CDeepImport (label : string) (t : deep_tables) (g : deep_genesis) (obs : option (deep_genesis * deep_index))
+(** raw key/value content of a module's store on the exporting chain and on the chain
+    initialised from its export, after both ran the same blocks: number of differing entries *)
+| CStore (label modname : string) (differing : N)
+(** a scripted scenario on the real application: named boolean observations that must all hold *)
+| CScenario (label : string) (observations : list (string * bool)).
 
 Definition model_roundtrip (t : tables) (g : app_genesis) : option app_genesis :=
   match app_import (ext_of t) g with
@@ -198,6 +209,19 @@ Definition check (c : case) : list string :=
   | CQueries _ d => prefix_all "prop:query_differs_after_import:" d
   | CAccepts _ a b =>
       tag a "prop:fresh_chain_rejects_export" ++ tag b "prop:reimported_chain_export_rejected"
+  | CDeepRound _ t g1 g2 ix1 ix2 => deep_round t g1 g2 ix1 ix2
+  | CDeepImport _ t g obs =>
+      match exch_model t (dg_exch g), marker_model t (dg_marker g), md_model t (dg_md g), obs with
+      | Some ex, Some mk, Some md, Some (o, ixo) =>
+          module_import "exchange" exch_genesis_q (exch_model t) (dg_exch g) (Some (dg_exch o, di_exch ixo)) ++
+          module_import "marker" marker_genesis_q (marker_model t) (dg_marker g) (Some (dg_marker o, di_marker ixo)) ++
+          module_import "metadata" md_genesis_q (md_model t) (dg_md g) (Some (dg_md o, di_md ixo))
+      | Some _, Some _, Some _, None => ["corr:perturbed_import_model_accepts:deep"]
+      | _, _, _, Some _ => ["corr:perturbed_import_model_rejects:deep"]
+      | _, _, _, None => []
+      end
+  | CStore _ m d => tag (d =? 0)%N ("prop:store_differs_after_import:" ++ m)%string
+  | CScenario _ obs => flat_map (fun ob => tag (snd ob) ("prop:" ++ fst ob)%string) obs
   | CDigests _ kind r o =>
       tag (list_eqb String.eqb r o)
           (if String.eqb kind "restart" then "prop:restart_digests_differ"
